@@ -340,12 +340,12 @@ func genPIT(r *vc.Rand) (ledgerstore.PITFilterWithVolumes, string) {
 
 func runC04(cfg *vc.Config, rep *vc.Report) {
 	if cfg.Only < 0 {
-		runC04Address(cfg, rep, cfg.Count(10000, 30000))
+		runC04Address(cfg, rep, cfg.Count(10000, 250000))
 	}
 	ctx := context.Background()
 	db, rec := fakesql.Open()
 	stores := map[string]*ledgerstore.Store{"ledgera": ledgerstore.NewStoreForVerif(db, "bucket0", "ledgera"), "ledgerb": ledgerstore.NewStoreForVerif(db, "bucket0", "ledgerb")}
-	cfg.Cases(20000, 60000, func(i int, r *vc.Rand) {
+	cfg.Cases(20000, 500000, func(i int, r *vc.Rand) {
 		name := vc.Pick(r, []string{"ledgera", "ledgerb"})
 		other := map[string]string{"ledgera": "ledgerb", "ledgerb": "ledgera"}[name]
 		s := stores[name]
